@@ -167,7 +167,50 @@ theorem informational_forwarded (st : St α) (s : Nat) (h1 : is1xx s = true) :
   refine ⟨by simp, by simp, by simp, fun h => ?_⟩
   simp [is1xx_informational h1 h]
 
+/-- **the status survives** (provable part; the full statement fails for `minimum_length < 0`, see
+    `Witness.status_full_fails`): a handler that edits headers / sends 1xx, announces the final status `s` and
+    then writes its body in any way without calling WriteHeader again gets exactly `s` delivered. -/
+theorem status_preserved_partial (cfg : Cfg α) (name : Bytes) (ic : Bool) (pre body : List (Op α)) (s : Nat)
+    (hmin : cfg.minLen > 0) (hs : is1xx s = false) (hs0 : s ≠ 0)
+    (hpre : ∀ op ∈ pre, Preliminary op) (hbody : ∀ op ∈ body, ∀ i, op ≠ Op.writeHeader i) :
+    ∃ h, (runWrapped cfg name ic (pre ++ Op.writeHeader s :: body)).sent = some (s, h) := by
+  have hni : isInformational s = false := by simp [isInformational, hs]
+  unfold runWrapped run
+  rw [List.foldl_append, List.foldl_cons]
+  have h1 := uncommitted_run cfg pre (St.init name ic) hpre ⟨rfl, rfl⟩
+  have h2 := held_after_final_writeHeader _ s hs h1
+  have h3 := held_run cfg hmin s hs0 hni body _ hbody h2
+  exact held_rwClose cfg s hs0 hni _ h3
+
 end
+
+/-- **transparency in bytes**: with byte-string payloads, the concatenation of what the client decodes is the
+    concatenation of everything the handler wrote (empty writes included). -/
+theorem transparent_bytes (cfg : Cfg Bytes) (hsz : cfg.size = List.length) (offered prefer : List Bytes)
+    (req : Req) (ops : List (Op Bytes)) (hmin : cfg.minLen > 0) (h101 : No101 ops) :
+    (clientBody (serve cfg offered prefer req ops).sel (serve cfg offered prefer req ops).final).map List.flatten
+      = some (writtenBytes ops) := by
+  rw [transparent cfg offered prefer req ops hmin h101]
+  simp only [Option.map_some, Option.some.injEq]
+  unfold written writtenBytes
+  induction ops with
+  | nil => rfl
+  | cons op ops ih =>
+    have ih' := ih (fun o ho => h101 o (List.mem_cons_of_mem _ ho))
+    simp only [List.flatMap_cons, List.flatten_append, List.map_cons, List.flatten_cons, ih']
+    congr 1
+    cases op with
+    | write p =>
+      simp only [opPayloads, hsz]
+      by_cases hp : p = []
+      · simp [hp]
+      · simp [hp]
+    | readFrom cs => exact flatten_nonEmpty cfg hsz cs
+    | writeHeader s => rfl
+    | flush => rfl
+    | hset k v => rfl
+    | hadd k v => rfl
+    | hdel k => rfl
 
 /-! ### entity tags -/
 
@@ -200,5 +243,73 @@ theorem etag_recognised (name e : Bytes) (h : StrongTag e) : rewriteINM name (ad
 /-- weak validators and `*` are never rewritten -/
 theorem weak_inm_untouched (name inm : Bytes) (h : hasPrefix vWeakPrefix inm = true) : rewriteINM name inm = inm := by
   simp [rewriteINM, h]
+
+/-! ### non-vacuity: the hypotheses are met by concrete, non-trivial runs (kernel-evaluated) -/
+
+/-- `text/html` -/
+def exTextHtml : Bytes := [116, 101, 120, 116, 47, 104, 116, 109, 108]
+/-- `"abc"` (with the quotes) -/
+def exTag : Bytes := [34, 97, 98, 99, 34]
+/-- `gzip;q=0.5, zstd` -/
+def exAE : Bytes := [103, 122, 105, 112, 59, 113, 61, 48, 46, 53, 44, 32, 122, 115, 116, 100]
+
+/-- default minimum length and default matcher; payloads are their lengths -/
+def exCfg : Cfg Nat := ⟨512, defaultMatcher.matches, id, fun _ => []⟩
+
+/-- Content-Type, strong ETag, a stale Content-Length, 103 then 200, a big write, flush, a small write, a ReadFrom -/
+def exOps : List (Op Nat) :=
+  [.hset kCT exTextHtml, .hset kEtag exTag, .hset kCL [57, 57], .writeHeader 103, .writeHeader 200,
+   .write 600, .flush, .write 10, .readFrom [100, 0, 50]]
+
+def exReq : Req := ⟨false, exAE, false, [], adjustEtag vZstd exTag⟩
+
+theorem exOps_no101 : No101 exOps := by
+  intro op h
+  simp [exOps] at h
+  rcases h with rfl | rfl | rfl | rfl | rfl | rfl | rfl | rfl | rfl <;> simp
+
+-- zstd (q = 1) wins over gzip (q = 0.5); the response is encoded; the client gets all five payloads;
+-- the If-None-Match the client sent back reaches the handler as the handler's own tag
+example : (serve exCfg [vGzip, vZstd] [] exReq exOps).sel = some vZstd ∧
+    plainOnly (serve exCfg [vGzip, vZstd] [] exReq exOps).final.log = false ∧
+    clientBody (some vZstd) (serve exCfg [vGzip, vZstd] [] exReq exOps).final = some [600, 10, 100, 50] ∧
+    (serve exCfg [vGzip, vZstd] [] exReq exOps).inm = exTag := by decide
+
+-- hypotheses of `transparent`, `encoded_only_if`, `headers_when_encoded` hold for it
+example : exCfg.minLen > 0 ∧ Encoded (runWrapped exCfg vZstd false exOps) := by
+  refine ⟨by decide, ?_⟩; unfold Encoded; decide
+
+-- the header the client received: Content-Encoding zstd, no Content-Length, the adjusted ETag, status 200
+example : (runWrapped exCfg vZstd false exOps).sent.map (fun x => (x.1, hValues x.2 kCE, hValues x.2 kCL, hValues x.2 kEtag))
+    = some (200, [vZstd], [], [adjustEtag vZstd exTag]) := by decide
+
+-- the same script with a small first write stays plain — and is transparent as well
+example : clientBody (some vZstd) (runWrapped exCfg vZstd false [.hset kCT exTextHtml, .write 10, .write 600])
+    = some [10, 600] ∧ plainOnly (runWrapped exCfg vZstd false [.hset kCT exTextHtml, .write 10, .write 600]).log = true := by
+  decide
+
+-- `negotiated_only_if` / `first_offered_among_accepted`: q=0 is refused, the not-offered `br` is skipped
+example : chooseEncoding [vGzip] [] ⟨false, [98, 114, 44, 103, 122, 105, 112], false, [], []⟩ = some vGzip := by decide
+example : chooseEncoding [vGzip] [] ⟨false, [103, 122, 105, 112, 59, 113, 61, 48], false, [], []⟩ = none := by decide
+
+-- `status_preserved_partial`: its hypotheses are met by exOps' shape (pre = 4 ops, s = 200, body = 4 ops)
+example : ∀ op ∈ ([.hset kCT exTextHtml, .writeHeader 103] : List (Op Nat)), Preliminary op := by
+  intro op h
+  simp at h
+  rcases h with rfl | rfl
+  · exact Or.inl ⟨_, _, rfl⟩
+  · exact Or.inr (Or.inr (Or.inr ⟨103, rfl, by decide, by decide⟩))
+
+-- `etag_recognised` / `etag_distinct`: "abc" ↦ "abc-zstd" ↦ "abc"
+example : StrongTag exTag ∧ adjustEtag vZstd exTag = [34, 97, 98, 99, 45, 122, 115, 116, 100, 34] :=
+  ⟨⟨by decide, [34, 97, 98, 99], rfl⟩, by decide⟩
+
+-- `informational_forwarded`: 103 goes out at once with the header as it is
+example : ((rwWriteHeader (St.init vGzip false : St Nat) 103).log, (rwWriteHeader (St.init vGzip false : St Nat) 103).wroteHeader)
+    = ([Ev.wh 103 []], false) := by decide
+
+-- `decision_once`: a committed, encoding writer stays encoding through any further calls
+example : (run exCfg (St.init vZstd false) exOps).wroteHeader = true ∧ (run exCfg (St.init vZstd false) exOps).encOpen = true := by
+  decide
 
 end CaddyModel.C15
